@@ -6,3 +6,17 @@ export GOFLAGS=-mod=mod GOPROXY=off
 mkdir -p ../bin
 go build -o ../bin/govc .
 echo "built /verif/bin/govc"
+
+# Lean lemmas used as axioms: check them once (Lean 4 + Mathlib, offline) and record the hash.
+cd "$(dirname "$0")/../lemmas" 2>/dev/null || cd /verif/lemmas
+for f in *.lean; do
+  [ -f "$f" ] || continue
+  sum=$(sha256sum "$f" | cut -d' ' -f1)
+  if [ "$(cat "$f.checked" 2>/dev/null)" != "$sum" ]; then
+    if out=$(lean "$f" 2>&1) && [ -z "$(echo "$out" | grep -i 'error')" ]; then
+      echo "$sum" > "$f.checked"; echo "lean accepted $f"
+    else
+      echo "lean REJECTED $f:"; echo "$out" | head -20; rm -f "$f.checked"; exit 1
+    fi
+  fi
+done
